@@ -17,5 +17,8 @@ TNext == /\ l <= Len(Traces[tid])
 
 TSpec == TInit /\ [][TNext]_tvars
 
-Report == (l = Len(Traces[tid]) + 1) => PrintT(<<"TRACE", tid, l - 1, firstBad>>)
+\* per trace: the clauses found false (with the index of the first event at which each was) and how often
+\* which judgement was made (obs.cnt: evidence)
+Report == (l = Len(Traces[tid]) + 1) => /\ PrintT(<<"TRACE", tid, l - 1, firstBad>>)
+                                         /\ PrintT(<<"COUNT", tid, obs.cnt>>)
 =============================================================================
